@@ -680,8 +680,12 @@ static bool expand_macro(Token **rest, Token *tok) {
     for (Token *t = body; t->kind != TK_EOF; t = t->next)
       t->origin = tok;
     *rest = append(body, tok->next);
-    (*rest)->at_bol = tok->at_bol;
-    (*rest)->has_space = tok->has_space;
+    // If the expansion is empty, *rest is the token after the macro; when
+    // that token starts a new line it must keep its own flags.
+    if (body->kind != TK_EOF || !(*rest)->at_bol) {
+      (*rest)->at_bol = tok->at_bol;
+      (*rest)->has_space = tok->has_space;
+    }
     return true;
   }
 
@@ -708,8 +712,10 @@ static bool expand_macro(Token **rest, Token *tok) {
   for (Token *t = body; t->kind != TK_EOF; t = t->next)
     t->origin = macro_token;
   *rest = append(body, tok->next);
-  (*rest)->at_bol = macro_token->at_bol;
-  (*rest)->has_space = macro_token->has_space;
+  if (body->kind != TK_EOF || !(*rest)->at_bol) {
+    (*rest)->at_bol = macro_token->at_bol;
+    (*rest)->has_space = macro_token->has_space;
+  }
   return true;
 }
 
